@@ -23,7 +23,7 @@ RULE = ('A case is one call sequence (30-200 calls) over one serializer instance
         'distinct_nontrivial = distinct emitted (gamma, claim, proof) byte triples that contain at least one Instantiate, Save or Load.')
 ASSUMPTIONS = ['calls the documented machine cannot apply but the tracker accepts (non-positive mu, redundant substitution, constraint-violating instantiation) are generated at a low rate and classified separately']
 FLOORS = {'quick': {'sequences': 1000, 'track:calls': 100000, 'track:top_comparisons': 50000, 'track:memory_comparisons': 3000, 'track:loads': 1000,
-                    'track:claim_comparisons': 1000, 'instantiate_unsorted_keys': 100, 'instantiate_key_absent_from_premise': 100, 'instantiate_pattern_unsorted_keys': 50, 'twin_notation_nodes': 100, 'equal_entries_sandwich': 50, 'loaded_axiom_instantiated': 100, 'track:publishes:gamma': 500, 'track:publishes:claim': 500,
+                    'track:claim_comparisons': 1000, 'instantiate_unsorted_keys': 100, 'instantiate_key_absent_from_premise': 100, 'instantiate_pattern_unsorted_keys': 50, 'twin_notation_nodes': 100, 'pending_then_binder': 100, 'pending_then_binder:binder_free_in_plug': 40, 'equal_entries_sandwich': 50, 'loaded_axiom_instantiated': 100, 'track:publishes:gamma': 500, 'track:publishes:claim': 500,
                     'track:publishes:proof': 500, 'modules_serialized': 20, 'own_tests:track_calls': 300,
                     **{f'track:call:{m}': 50 for m in track.METHODS}}}
 FLOORS['thorough'] = dict(FLOORS['quick'], sequences=20000)
@@ -119,7 +119,10 @@ def one_sequence(ctx, rng, memo):
         for c, recipe in claims:
             for _ in range(rng.randint(0, 3)):
                 r = rng.random()
-                if r < 0.4:
+                if r < 0.08:
+                    pr = d.pending_then_binder()
+                    d.call('pop', pr)
+                elif r < 0.4:
                     d.junk()
                 elif r < 0.7:
                     pr = d.inst_axiom()
